@@ -65,6 +65,8 @@ NewArena ==
     resurrected |-> {},       \* resurrected in the running cycle
     dead |-> {},              \* objects reported dead in the running finalize callback
     revived |-> FALSE,        \* a dead object was resurrected in the running finalize callback
+    adopted |-> {},           \* targets of strong stores made while a cycle was running (C06)
+    wadopted |-> {},          \* targets of weak stores made while a cycle was running (C06)
     dropping |-> FALSE ]
 
 Init0 ==
@@ -131,12 +133,15 @@ OnAlloc(m, e, i) ==
   IN \* C17 (core part): the value is aligned and lies inside the block, after the bookkeeping
      Check(m2, e.tracked, e.off >= 16 /\ e.off % e.align = 0, "C17", "r1", i, o)
 
+MidCycle(m, a) == m.ar[a].phase # "Sleeping"
+
 OnStore(m, e, i) ==
-  LET a == ArenaOf(e) IN
+  LET a == ArenaOf(e)
+      m0 == IF MidCycle(m, a) THEN [m EXCEPT !.ar[a].adopted = @ \cup {e.c}] ELSE m IN
   IF ~e.effective THEN m
-  ELSE IF e.p = 0 THEN [Mutated(m, a) EXCEPT !.ar[a].rootS = Append(@, e.c)]
+  ELSE IF e.p = 0 THEN [Mutated(m0, a) EXCEPT !.ar[a].rootS = Append(@, e.c)]
   ELSE LET single == m.kind[e.p] \in {"L", "O"} IN
-       [Mutated(m, a) EXCEPT !.strong[e.p] = IF single THEN <<e.c>> ELSE Append(@, e.c)]
+       [Mutated(m0, a) EXCEPT !.strong[e.p] = IF single THEN <<e.c>> ELSE Append(@, e.c)]
 
 OnRemove(m, e, i) ==
   LET a == ArenaOf(e) IN
@@ -144,10 +149,11 @@ OnRemove(m, e, i) ==
   ELSE [Mutated(m, a) EXCEPT !.strong[e.p] = RemoveOne(@, e.c)]
 
 OnWStore(m, e, i) ==
-  LET a == ArenaOf(e) IN
-  IF e.p = 0 THEN [Mutated(m, a) EXCEPT !.ar[a].rootW = Append(@, e.t)]
+  LET a == ArenaOf(e)
+      m0 == IF MidCycle(m, a) THEN [m EXCEPT !.ar[a].wadopted = @ \cup {e.t}] ELSE m IN
+  IF e.p = 0 THEN [Mutated(m0, a) EXCEPT !.ar[a].rootW = Append(@, e.t)]
   ELSE LET single == m.kind[e.p] = "L" IN
-       [Mutated(m, a) EXCEPT !.weak[e.p] = IF single THEN <<e.t>> ELSE Append(@, e.t)]
+       [Mutated(m0, a) EXCEPT !.weak[e.p] = IF single THEN <<e.t>> ELSE Append(@, e.t)]
 
 OnWRemove(m, e, i) ==
   LET a == ArenaOf(e) IN
@@ -211,6 +217,8 @@ OnCallEnd(m, e, i) ==
       began == before \in {"Sweeping"} /\ after \in {"Marking", "Marked"}
       m5 == [m4 EXCEPT !.call = "",
                        !.ar[a].resurrected = IF ended THEN {} ELSE @,
+                       !.ar[a].adopted = IF after = "Sleeping" THEN {} ELSE @,
+                       !.ar[a].wadopted = IF after = "Sleeping" THEN {} ELSE @,
                        !.ar[a].mutSinceWake = IF began THEN FALSE ELSE @]
   IN m5
 
@@ -230,7 +238,9 @@ OnDestruct(m, e, i) ==
       \* C03 r1: not while a callback runs
       m2 == Check(m1, TRUE, m.cb = "", "C03", "r1", i, o)
       \* C01 r1: not while strongly reachable (dropping the arena excepted)
-      m3 == Check(m2, ~InDrop(m, o), o \notin ReachNow(m, a), "C01", "r1", i, o)
+      m3a == Check(m2, ~InDrop(m, o), o \notin ReachNow(m, a), "C01", "r1", i, o)
+      \* C06 r2: ... in particular not a value adopted through a barrier path while a cycle ran
+      m3 == Check(m3a, ~InDrop(m, o) /\ o \in ReachNow(m, a) /\ o \in Close(m, m.ar[a].adopted), FALSE, "C06", "r2", i, o)
       \* C07 r4: nothing strongly reachable from an object resurrected in this cycle
       cyc == m.call \in {"cycle_debt", "finish_cycle", "mark_debt", "finish_marking", "finalize", "start_sweeping"}
       m4 == Check(m3, ~InDrop(m, o) /\ cyc /\ m.ar[a].resurrected # {}, o \notin m.callRes, "C07", "r4", i, o)
@@ -249,7 +259,8 @@ OnRelease(m, e, i) ==
       \* C04 r3 / C17 r2: release hands back the layout that was requested
       m2 == Check(m1, TRUE, e.req = e.rel, "C04", "r3", i, o)
       m3 == Check(m2, TRUE, m.cb = "", "C03", "r2", i, o)
-      m4 == Check(m3, ~InDrop(m, o), o \notin ReachNow(m, a), "C01", "r2", i, o)
+      m4a == Check(m3, ~InDrop(m, o), o \notin ReachNow(m, a), "C01", "r2", i, o)
+      m4 == Check(m4a, ~InDrop(m, o) /\ o \in ReachNow(m, a) /\ o \in Close(m, m.ar[a].adopted), FALSE, "C06", "r2", i, o)
       \* C04 r5: a value with a destructor is destructed before its block goes
       m5 == Check(m4, m.dtor[o], o \in m.destructed, "C04", "r5", i, o)
       \* C17 r3: nothing was written outside the block
@@ -266,7 +277,9 @@ OnDeref(m, e, i) ==
   ELSE LET rm == WithReach(m, a)
            m1 == rm[2]
        IN IF e.why = "content" THEN Flag(Hit(m1, "C01.r4"), "C01", "r4", i, e.o)       \* reads what was stored there
-          ELSE IF e.o \in rm[1] THEN Flag(Hit(m1, "C01.r3"), "C01", "r3", i, e.o)      \* reachable value gone
+          ELSE IF e.o \in rm[1] THEN                                                  \* reachable value gone
+                 LET m2 == Flag(Hit(m1, "C01.r3"), "C01", "r3", i, e.o)
+                 IN Check(m2, e.o \in Close(m2, m2.ar[a].adopted), FALSE, "C06", "r2", i, e.o)
           ELSE Flag(Hit(m1, "C05.r6"), "C05", "r6", i, e.o)                            \* upgraded pointer not usable
 
 \* a query of a weak pointer held by the root or by an accessible object
@@ -278,7 +291,9 @@ OnWeak(m, e, i) ==
       ph == m0.ar[a].phase
       hasD == Known(m0, t) /\ m0.dtor[t]
       \* C05 r5: the target's block is still allocated
-      m1 == Check(m0, TRUE, e.block /\ Known(m0, t) /\ t \notin m0.released, "C05", "r5", i, t)
+      m1a == Check(m0, TRUE, e.block /\ Known(m0, t) /\ t \notin m0.released, "C05", "r5", i, t)
+      \* C06 r3: a weak pointer adopted through a barrier path keeps its target queryable
+      m1 == Check(m1a, ~e.block /\ t \in m0.ar[a].wadopted, FALSE, "C06", "r3", i, t)
   IN IF ~e.block \/ ~Known(m0, t) THEN m1
      ELSE
      LET \* r1: upgrade returns only values that were not destructed
